@@ -380,6 +380,11 @@ LAYOUTS = [
     # different file for includers in different directories
     ["app/main.pn", "lib/util.pn", "app/util.pn", "lib/helper.pn"],
     ["one/main.pn", "two/part.pn", "one/part.pn", "two/sub/part.pn"],
+    # long paths (module names are derived from them)
+    ["a_rather_long_directory_name/with_another_level/the_main_module_of_the_program.pn",
+     "a_rather_long_directory_name/with_another_level/a_helper_module_with_a_long_name.pn",
+     "a_rather_long_directory_name/second_helper_module_with_a_long_name.pn",
+     "yet_another_quite_long_directory_name/third_helper_module.pn"],
 ]
 
 
